@@ -868,3 +868,33 @@ def opt_wrappers(chk, P, prefixes, floor, rid="SIB.opt_wrapper"):
                     ok = False
                     detail = "%s passes %s to %s, expected its own parameters in order" % (last, [str(x)[:40] for x in a], sib[0].rsplit("::", 1)[-1])
         chk.expect(ok, last if n.count("::") < 1 else pre.rsplit("::", 1)[-1] + "::" + last, detail, loc=P.loc(n))
+
+
+def operator_directions(chk, P, rhs_kinds, floor, rid="SIB.operator_direction"):
+    """Every in-crate `impl Add/Sub/AddAssign/SubAssign<R> for T` (R among rhs_kinds) delegates in its own direction: the add/sub-named
+    callees of an Add impl are all add-named (checked_add_*, overflowing_add_*, add, add_assign) and of a Sub impl all sub-named, the
+    callee's suffix matches R (Months -> _months, Days -> _days, FixedOffset -> _offset, TimeDelta / Duration -> _signed), and an
+    impl taking core::time::Duration converts it with TimeDelta::from_std (the whole duration, not only its seconds)."""
+    import re
+    chk.rule(rid, "operator impls delegate in their own direction to the checked/overflowing method for their right-hand type; std Durations are converted by TimeDelta::from_std", floor=floor)
+    suffix = {"month::Months": "_months", "naive::Days": "_days", "offset::fixed::FixedOffset": "_offset", "time_delta::TimeDelta": "_signed", "std::time::Duration": "_signed"}
+    for n in sorted(P.fns):
+        m = re.match(r"<(.+) as std::ops::(Add|Sub)(Assign)?<(.+)>>::(add|sub)(_assign)?$", n)
+        if not m or "mir" not in P.fns[n] or m.group(4) not in rhs_kinds or m.group(1).startswith("time_delta::"):
+            continue
+        want = m.group(2).lower()
+        cs = set()
+        for x in [n] + P.closures_of(n):
+            cs |= set(callees(P, x, with_closures=False))
+        named = sorted(set(c.rsplit("::", 1)[-1] for c in cs if re.match(r"(checked_|overflowing_)?(add|sub)(_|$)", c.rsplit("::", 1)[-1])))
+        ok = bool(named) and all(re.match(r"(checked_|overflowing_)?%s(_|$)" % want, x) for x in named)
+        why = "delegates to %s" % named
+        if ok:
+            long = [x for x in named if x.startswith(("checked_", "overflowing_"))]
+            if long and not all(x.endswith(suffix[m.group(4)]) for x in long):
+                ok, why = False, "delegates to %s, expected the *%s method" % (named, suffix[m.group(4)])
+            # NaiveTime reduces a std Duration modulo one day itself before building the TimeDelta (decided by C07's value map)
+            if ok and long and m.group(4) == "std::time::Duration" and m.group(1) != "naive::time::NaiveTime" and "time_delta::TimeDelta::from_std" not in cs:
+                ok, why = False, "converts the std Duration without TimeDelta::from_std (callees %s)" % sorted(c.rsplit("::", 1)[-1] for c in cs if c.startswith("time_delta::"))
+        chk.expect(ok, "%s %s<%s>" % (m.group(1).rsplit("::", 1)[-1], m.group(2) + (m.group(3) or ""), m.group(4).rsplit("::", 1)[-1]),
+                   "%s: %s" % (n, why), loc=P.loc(n))
